@@ -130,10 +130,11 @@ class Primitive(object):
 
 
 class Continuation(object):
-    __slots__ = ("k",)
+    __slots__ = ("k", "serial")
 
-    def __init__(self, k):
+    def __init__(self, k, serial=0):
         self.k = k
+        self.serial = serial      # number of the top-level datum during which it was captured
 
 
 class Promise(object):
@@ -432,6 +433,8 @@ def show(x, write=True, budget=20000):
                     continue
                 if x is NIL:
                     break
+                if type(x) is Promise:
+                    raise Unspecified("a promise in tail position of a printed pair exposes its representation")
                 out.append(" . ")
                 rec(x, depth + 1)
                 break
@@ -527,7 +530,8 @@ class Machine(object):
         self.steps = 0
         self.lam_cache = {}
         self.kw_shadow = False   # some binding construct bound a keyword name
-        self.stats = {}
+        self.events = set()      # noteworthy dynamic situations (used to classify findings)
+        self.serial = 0          # top-level datum counter
         install_primitives(self)
 
     # ----------------------------------------------------------------- environments
@@ -616,6 +620,7 @@ class Machine(object):
     # ------------------------------------------------------------------------ run
     def eval_toplevel(self, expr):
         """evaluate one top-level datum in the global environment; returns the value"""
+        self.serial += 1
         return self.run(expr, self.genv, None)
 
     def run(self, expr, env, k):
@@ -1210,6 +1215,15 @@ class Machine(object):
             return f.special(self, args, k)
         if t is Continuation:
             if len(args) == 1:
+                ev = self.events
+                ev.add("continuation-invoked")
+                kk = k
+                while kk is not None and kk is not f.k:
+                    kk = kk[1]
+                if kk is not f.k:
+                    ev.add("continuation-reentered")       # its extent had been left: not an escape
+                if f.serial != self.serial:
+                    ev.add("continuation-from-earlier-form")
                 return None, None, f.k, args[0], False
             if len(args) == 0:
                 raise SchemeError("continuation invoked with no value")
@@ -1336,6 +1350,8 @@ def _no_unspec(*xs):
     for x in xs:
         if x is UNSPEC:
             raise Unspecified("an unspecified value is inspected")
+        if type(x) is Promise:
+            raise Unspecified("a promise is inspected (R7RS: promises need not be disjoint from other types)")
 
 
 def _int(x):
@@ -1475,6 +1491,8 @@ def install_primitives(m):
 
     @prim("-", 1, None)
     def _(*xs):
+        if type(xs[0]) is not int:
+            m.events.add("minus-first-operand-not-a-number")
         for x in xs:
             _int(x)
         if len(xs) == 1:
@@ -1487,6 +1505,8 @@ def install_primitives(m):
     def compare(name, rel):
         def f(*xs):
             for x in xs:
+                if type(x) is not int:
+                    m.events.add("comparison-of-a-non-number")
                 _int(x)
             if len(xs) < 2:
                 raise Unspecified("comparison with fewer than two arguments")
@@ -1624,7 +1644,7 @@ def install_primitives(m):
         return m.apply(f, tuple(args[1:-1]) + tuple(lst), k)
 
     def callcc(m, args, k):
-        return m.apply(args[0], (Continuation(k),), k)
+        return m.apply(args[0], (Continuation(k, m.serial),), k)
     special("call/cc", 1, 1)(callcc)
     special("call-with-current-continuation", 1, 1)(callcc)
 
@@ -1655,7 +1675,17 @@ def run_session(forms, config=None):
     """forms: list of texts.  Returns ('OK', line) with the expected canonical line of wire
     interface 70 (WILD marks wildcard data, PROC procedure prefixes), or ('LIMIT', why) /
     ('UNSPEC', why) when the session cannot serve as a specification."""
+    return run_session_ex(forms, config)[:2]
+
+
+def run_session_ex(forms, config=None):
+    """as run_session, plus the sorted list of dynamic events the machine noted"""
     m = Machine(config)
+    st, line = _run_session(m, forms)
+    return st, line, sorted(m.events)
+
+
+def _run_session(m, forms):
     parts = ["SESSION"]
     try:
         for f in forms:
